@@ -738,8 +738,13 @@ def _new_constants(P: Program) -> Dict[str, ast.expr]:
                         for x in ast.walk(t):
                             if isinstance(x, ast.Name):
                                 cnt[x.id] = cnt.get(x.id, 0) + 1
-                    if len(tg) == 1 and isinstance(tg[0], ast.Name) and st.value is not None and _scalar_literal(st.value):
-                        val[tg[0].id] = st.value
+                    if len(tg) == 1 and isinstance(tg[0], ast.Name) and st.value is not None:
+                        if _scalar_literal(st.value) or (isinstance(st.value, ast.Tuple) and all(_scalar_literal(e) for e in st.value.elts)):
+                            val[tg[0].id] = st.value
+                        else:
+                            flds = _record_fields(P, st.value)
+                            if flds is not None:
+                                val[tg[0].id] = flds
             for n in ast.walk(m.tree):
                 if isinstance(n, (ast.Global,)):
                     for nm in n.names:
@@ -747,6 +752,99 @@ def _new_constants(P: Program) -> Dict[str, ast.expr]:
         out = {n: v for n, v in val.items() if cnt.get(n) == 1 and n not in pinned and not n.startswith("__")}
         _NEWCONST_CACHE[k] = (P, out)
     return _NEWCONST_CACHE[k][1]
+
+
+def _record_fields(P: Program, e: ast.expr) -> Optional[ast.expr]:
+    """`Cls._fields` of a NamedTuple class of the package (possibly wrapped in tuple(..)): the tuple of its field names"""
+    if isinstance(e, ast.Call) and isinstance(e.func, ast.Name) and e.func.id == "tuple" and len(e.args) == 1 and not e.keywords:
+        e = e.args[0]
+    if not (isinstance(e, ast.Attribute) and e.attr == "_fields" and isinstance(e.value, ast.Name)):
+        return None
+    for m in P.real_modules():
+        c = m.classes.get(e.value.id)
+        if c is not None and any(isinstance(b, ast.Name) and b.id == "NamedTuple" for b in c.node.bases):
+            names = [st.target.id for st in c.node.body if isinstance(st, ast.AnnAssign) and isinstance(st.target, ast.Name)]
+            return ast.copy_location(ast.Tuple(elts=[ast.copy_location(ast.Constant(value=n), e) for n in names], ctx=ast.Load()), e)
+    return None
+
+
+def _fold_literals(P: Program, f: Func) -> Func:
+    """`Cls._fields` → the tuple of names; `list(<literal tuple>)` / `tuple(<literal list>)` → the display; a one-generator comprehension over a literal
+    tuple / list of constants → the display it builds (`{c: g(getattr(r, c)) for c in ('a', 'b')}` → `{'a': g(r.a), 'b': g(r.b)}`)."""
+    interesting = False
+    for x in own_nodes(f.node):
+        if isinstance(x, ast.Attribute) and x.attr == "_fields":
+            interesting = True
+        if isinstance(x, (ast.DictComp, ast.ListComp, ast.SetComp)) and len(x.generators) == 1 and isinstance(x.generators[0].iter, (ast.Tuple, ast.List, ast.Attribute)):
+            interesting = True
+        if isinstance(x, ast.Call) and isinstance(x.func, ast.Name) and x.func.id in ("list", "tuple") and len(x.args) == 1 and isinstance(x.args[0], (ast.Tuple, ast.List, ast.Attribute)):
+            interesting = True
+    if not interesting:
+        return f
+    node = norm.clone(f.node)
+    changed = False
+
+    def lit_seq(e):
+        return isinstance(e, (ast.Tuple, ast.List)) and isinstance(e.ctx, ast.Load) and all(_scalar_literal(x) for x in e.elts)
+
+    class T(ast.NodeTransformer):
+        def visit_Attribute(self, n):
+            nonlocal changed
+            self.generic_visit(n)
+            r = _record_fields(P, n) if isinstance(n.ctx, ast.Load) else None
+            if r is not None:
+                changed = True
+                return r
+            return n
+
+        def visit_Call(self, n):
+            nonlocal changed
+            self.generic_visit(n)
+            if isinstance(n.func, ast.Name) and n.func.id in ("list", "tuple") and len(n.args) == 1 and not n.keywords and lit_seq(n.args[0]):
+                changed = True
+                mk = ast.List if n.func.id == "list" else ast.Tuple
+                return ast.copy_location(mk(elts=n.args[0].elts, ctx=ast.Load()), n)
+            if isinstance(n.func, ast.Name) and n.func.id == "getattr" and len(n.args) == 2 and not n.keywords and isinstance(n.args[1], ast.Constant) \
+                    and isinstance(n.args[1].value, str) and n.args[1].value.isidentifier():
+                changed = True
+                return ast.copy_location(ast.Attribute(value=n.args[0], attr=n.args[1].value, ctx=ast.Load()), n)
+            return n
+
+        def _unroll(self, n, build):
+            nonlocal changed
+            g = n.generators[0]
+            if len(n.generators) == 1 and not g.ifs and not g.is_async and isinstance(g.target, ast.Name) and lit_seq(g.iter) and 0 < len(g.iter.elts) <= 32:
+                v = g.target.id
+                parts = []
+                for c in g.iter.elts:
+                    parts.append(build(lambda e, c=c: norm.Subst({v: c}).visit(norm.clone(e))))
+                changed = True
+                return parts
+            return None
+
+        def visit_DictComp(self, n):
+            self.generic_visit(n)
+            parts = self._unroll(n, lambda sub: (sub(n.key), sub(n.value)))
+            if parts is None:
+                return n
+            d = ast.copy_location(ast.Dict(keys=[self.visit(k) for k, _ in parts], values=[self.visit(v) for _, v in parts]), n)
+            return d
+
+        def visit_ListComp(self, n):
+            self.generic_visit(n)
+            parts = self._unroll(n, lambda sub: sub(n.elt))
+            if parts is None:
+                return n
+            return ast.copy_location(ast.List(elts=[self.visit(p) for p in parts], ctx=ast.Load()), n)
+    node = T().visit(node)
+    if not changed:
+        return f
+    ast.fix_missing_locations(node)
+    for n in ast.walk(node):
+        for ch in ast.iter_child_nodes(n):
+            ch._parent = n  # type: ignore[attr-defined]
+    node._parent = getattr(f.node, "_parent", None)  # type: ignore[attr-defined]
+    return Func(f.mod, f.qual, node, f.cls)
 
 
 def _scalar_literal(e: ast.expr) -> bool:
@@ -814,6 +912,9 @@ def _new_public_defs(P: Program) -> Tuple[Dict[str, List[Func]], Dict[str, List[
         funcs: Dict[str, List[Func]] = {}
         for m in P.real_modules():
             for f in m.funcs.values():
+                if f.name.startswith("_") and not f.name.startswith("__") and "." not in f.qual:
+                    funcs.setdefault(f.name, []).append(f)       # a private function: reached by name from another module only through an import or a looked-through caller
+                    continue
                 if f.name.startswith("_") or f.name in pinned:
                     continue
                 if f.cls and f.qual == f"{f.cls}.{f.name}":
@@ -1120,7 +1221,11 @@ def inline_helpers(P: Program, f: Func, depth: int = 2) -> Func:
         v = _local_objects(P, v)                     # a never-escaping instance of a small new class is a bundle of locals
         v = _plain_assignments(v)
         v = _bucket_reads(v)                         # group-by-field dict + lookup  ==  filter by that field
+        from .partition import partition_lists, exit_flag_flow
+        v = exit_flag_flow(P, v)                     # single exit with a result flag  ==  the early exits it stands for
+        v = partition_lists(v)                       # kept/removed partition + `L[:] = kept`  ==  deferred removal of the removed members
         v = _named_literals(P, v)                    # a module constant the pinned tree does not have stands for its literal
+        v = _fold_literals(P, v)                     # Cls._fields, list(<literal>), comprehension over a literal tuple: written out
         v = inline_predicates(P, v)                  # side-effect-free one-expression helpers, wherever they are called (loop tests, arguments, ...)
         v = erase(P, v)                              # local records (NamedTuples) written back as tuples / separate locals
         hit = (P, f.node, dealias(_loop_field_aliases(_index_loops(_genexp_loops(_plain_assignments(v)))), subscripts=False))
@@ -1299,10 +1404,12 @@ def _search_result_flow(f: Func) -> Func:
                     if len(sites) != 1:
                         continue
                     stmts_b, kb, prev = sites[0]
-                    if not (isinstance(prev, ast.Assign) and len(prev.targets) == 1 and norm.is_name(prev.targets[0], X)
-                            and isinstance(prev.value, (ast.Tuple, ast.List, ast.Dict, ast.Call, ast.JoinedStr))
-                            and not (isinstance(prev.value, ast.Call) and not (isinstance(prev.value.func, ast.Name) and prev.value.func.id[:1].isupper()))):
+                    if not (isinstance(prev, ast.Assign) and len(prev.targets) == 1 and norm.is_name(prev.targets[0], X)):
                         continue
+                    visibly = isinstance(prev.value, (ast.Tuple, ast.List, ast.Dict, ast.Call, ast.JoinedStr)) \
+                        and not (isinstance(prev.value, ast.Call) and not (isinstance(prev.value.func, ast.Name) and prev.value.func.id[:1].isupper()))
+                    if not visibly and not isinstance(guard.body[-1], (ast.Return, ast.Raise)):
+                        continue          # the found value may itself be None: the guard has to stay, and only a return / raise means the same inside the loop
                     binds = [x for x in ast.walk(lp) if isinstance(x, ast.Name) and x.id == X and isinstance(x.ctx, (ast.Store, ast.Del))]
                     if len(binds) != 2:
                         continue
@@ -1310,8 +1417,9 @@ def _search_result_flow(f: Func) -> Func:
                     if _has_loop_jump(rest):
                         continue
                     # move
-                    stmts_b[kb:kb] = rest
-                    lp.orelse = el + guard.body
+                    stmts_b[kb:kb] = rest if visibly else [norm.clone(guard)] + rest
+                    dead = isinstance(guard.body[-1], (ast.Return, ast.Raise)) and not any(isinstance(x, ast.Name) and x.id == X for b_ in guard.body for x in ast.walk(b_))
+                    lp.orelse = (el[:-1] if dead else el) + guard.body          # `X = None` right before leaving the function without reading X is dropped
                     del blk[i + 1:]
                     again = changed = True
                     break
@@ -1402,11 +1510,21 @@ def _search_result_flow(f: Func) -> Func:
                     X = st.value.id
                     lv = live_leaves([pv], X)
                     tnames = {t.id for t in st.targets[0].elts}
-                    if lv and len(lv) <= 8 and all(isinstance(leaf[-1].value, ast.Tuple) and len(leaf[-1].value.elts) == len(st.targets[0].elts)
-                                                    and not (tnames & {x.id for x in ast.walk(leaf[-1].value) if isinstance(x, ast.Name)}) for leaf in lv):
+                    def _safe(leaf):
+                        """element-wise assignment means the same as the parallel one: an element is the target itself (nothing to do) or reads no target"""
+                        if not (isinstance(leaf[-1].value, ast.Tuple) and len(leaf[-1].value.elts) == len(st.targets[0].elts)):
+                            return False
+                        for t, v_ in zip(st.targets[0].elts, leaf[-1].value.elts):
+                            if isinstance(v_, ast.Name) and v_.id == t.id:
+                                continue
+                            if tnames & {x.id for x in ast.walk(v_) if isinstance(x, ast.Name)}:
+                                return False
+                        return True
+                    if lv and len(lv) <= 8 and all(_safe(leaf) for leaf in lv):
                         for leaf in lv:
                             vals = leaf[-1].value.elts
-                            leaf.extend([ast.copy_location(ast.Assign(targets=[norm.clone(t)], value=norm.clone(v_)), st) for t, v_ in zip(st.targets[0].elts, vals)])
+                            leaf.extend([ast.copy_location(ast.Assign(targets=[norm.clone(t)], value=norm.clone(v_)), st) for t, v_ in zip(st.targets[0].elts, vals)
+                                         if not (isinstance(v_, ast.Name) and v_.id == t.id)])
                         del blk[k]
                         changed = True
                         continue
